@@ -27,7 +27,8 @@ def cleanup(d):
 
 
 def run_check(prop, repo):
-    env = dict(os.environ, PYVC_REPO=repo)
+    # evidence of a run against a scratch tree goes under out/ (git-ignored), never into evidence/
+    env = dict(os.environ, PYVC_REPO=repo, PYVC_EVIDENCE_DIR=os.path.join(VERIF, "out", "selftest_evidence"))
     p = subprocess.run([os.path.join(VERIF, "check"), prop, "--tier", "quick"], capture_output=True, text=True, env=env, cwd=VERIF)
     return p.returncode, p.stdout + p.stderr
 
